@@ -20,7 +20,9 @@ LEVEL = "exploration"
 RULE = (
     "Hypothesis RuleBasedStateMachine over one controller: register application (ids 0..2, unit module 1..4), stop, "
     "re-register a stopped id, run a small subroutine for an application (qalloc/qfree/set/add/array/store/load/ret_reg/"
-    "ret_arr with generated operands, incl. faulting ones), receive a keep pair (recv_epr + scripted response), all through "
+    "ret_arr with generated operands, incl. faulting ones), receive a keep pair (recv_epr + scripted response), the network stack taking a "
+    "physical qubit ahead of delivery, subroutines that stay suspended in a wait while other applications run (start / deliver / resume "
+    "as separate steps, up to three suspended at once), all through "
     "serialised messages; invariants after every step.  Thorough adds exhaustive enumeration of all histories to depth 5 "
     "over a reduced alphabet.  Non-trivial = >=2 applications alive at once and >=1 stop; distinct by history hash"
 )
@@ -84,7 +86,9 @@ class Runner13:
         self.stopped: set = set()
         self.history: List[Any] = []
         self.msg_id = 0
-        self.info = {"max_alive": 0, "stops": 0, "reinit": 0, "faults": 0, "epr": 0}
+        self.info = {"max_alive": 0, "stops": 0, "reinit": 0, "faults": 0, "epr": 0, "reserve": 0, "suspended": 0, "max_suspended": 0}
+        self.reserved: List[int] = []  # physical qubits the network stack has taken for pairs it has not delivered yet
+        self.suspended: List[Dict[str, Any]] = []  # subroutines waiting for a pair (oldest request first)
 
     def case(self):
         return {"history": list(self.history)}
@@ -103,7 +107,7 @@ class Runner13:
         for a, m in self.model.items():
             if a != exclude:
                 s |= set(m.qubits.values())
-        return s
+        return s | set(self.reserved)
 
     def snapshot_app(self, a) -> Dict[str, Any]:
         from netqasm.sdk.shared_memory import SharedMemoryManager
@@ -203,7 +207,11 @@ class Runner13:
             while phys_expected in used:
                 phys_expected += 1
             fields = {"bell_state": 0, "create_id": 5, "sequence_number": 6, "goodness": 7, "goodness_time": 8}
-            if (virt + len(self.history)) % 2 == 0:
+            if self.reserved:
+                # the pair sits in a qubit the stack took earlier
+                phys_expected = self.reserved.pop(0)
+                fields["logical_qubit_id"] = phys_expected
+            elif (virt + len(self.history)) % 2 == 0:
                 # a stack that chooses the (free) physical qubit itself and only reports it
                 fields["logical_qubit_id"] = phys_expected
             self.stack.expect("recv", "K", 1, [fields])
@@ -219,6 +227,100 @@ class Runner13:
             m.qubits[virt] = phys_expected
             m.used_phys.add(phys_expected)
             self.info["epr"] += 1
+        elif k == "reserve":
+            # the network stack takes a free physical qubit for a pair that it will deliver later
+            used = self.used_model()
+            want = 0
+            while want in used:
+                want += 1
+            p = self.ex._get_unused_physical_qubit()
+            if p != want:
+                raise Failure("reserve:qubit-in-use" if p in used else "reserve:not-lowest", self.case(), f"the stack was handed physical qubit {p}; in use/reserved {sorted(used)}")
+            self.reserved.append(p)
+            self.info["reserve"] += 1
+        elif k == "epr_start":
+            _, a, virt = op
+            stepping = a
+            from netqasm.lang.parsing.text import parse_text_subroutine
+            from netqasm.backend.messages import deserialize_host_msg
+
+            sub = parse_text_subroutine(f"# NETQASM 0.0\n# APPID {a}\narray 1 @7\nstore {virt} @7[0]\narray 10 @8\nrecv_epr(1,0) 7 8\nwait_all @8[0:10]\nset R1 {40 + a}\nret_reg R1\n")
+            self.msg_id += 1
+            self.ex.yield_on_wait = True
+            try:
+                gen = self.ctrl.handle_netqasm_message(self.msg_id, deserialize_host_msg(bytes(SubroutineMessage(sub))))
+                state = None
+                for y in gen:
+                    if y == self.ex.WAITING:
+                        state = "waiting"
+                        break
+            except Exception as e:
+                raise Failure(f"epr-start-raises:{type(e).__name__}", self.case(), f"application {a}: {type(e).__name__}: {(str(e).splitlines() or [''])[0][:160]}")
+            finally:
+                self.ex.yield_on_wait = False
+            if state != "waiting":
+                raise Failure("epr-start:no-wait", self.case(), f"application {a}: a subroutine waiting for a pair that was never delivered ran to completion")
+            snap = self.snapshot_app(a)
+            m = self.model[a]
+            m.regs = dict(snap["regs"])
+            m.arrays[7] = [virt]
+            m.arrays[8] = [None] * 10
+            self.suspended.append({"app": a, "virt": virt, "gen": gen, "delivered": False})
+            self.info["suspended"] += 1
+            self.info["max_suspended"] = max(self.info["max_suspended"], len(self.suspended))
+        elif k == "epr_deliver":
+            # the link layer delivers one pair: it belongs to the oldest request still waiting for one
+            tgt = next(s_ for s_ in self.suspended if not s_["delivered"])
+            a, virt = tgt["app"], tgt["virt"]
+            stepping = a
+            from netqasm.qlink_compat import LinkLayerOKTypeK, ReturnType
+
+            if self.reserved:
+                p = self.reserved.pop(0)
+            else:
+                used = self.used_model()
+                p = 0
+                while p in used:
+                    p += 1
+            resp = LinkLayerOKTypeK(type=ReturnType.OK_K, create_id=5, logical_qubit_id=p, directionality_flag=1, sequence_number=6, purpose_id=0, remote_node_id=1, goodness=7, goodness_time=8, bell_state=0)
+            try:
+                self.ex._handle_epr_response(resp)
+            except Exception as e:
+                raise Failure(f"epr-deliver-raises:{type(e).__name__}", self.case(), f"{type(e).__name__}: {(str(e).splitlines() or [''])[0][:160]}")
+            tgt["delivered"] = True
+            m = self.model[a]
+            m.qubits[virt] = p
+            m.used_phys.add(p)
+            m.arrays[8] = list(self.snapshot_app(a)["arrays"].get(8, []))
+            if any(v is None for v in m.arrays[8]):
+                raise Failure("epr-deliver:not-stored", self.case(), f"application {a}: after the response its result array is {m.arrays[8]}")
+            self.info["epr"] += 1
+        elif k == "epr_resume":
+            _, idx = op
+            tgt = self.suspended[idx % len(self.suspended)]
+            a = tgt["app"]
+            stepping = a
+            self.ex.yield_on_wait = True
+            done = True
+            try:
+                for y in tgt["gen"]:
+                    if y == self.ex.WAITING:
+                        done = False
+                        break
+            except Exception as e:
+                raise Failure(f"epr-resume-raises:{type(e).__name__}", self.case(), f"application {a}: resuming its waiting subroutine raised {type(e).__name__}: {(str(e).splitlines() or [''])[0][:160]}")
+            finally:
+                self.ex.yield_on_wait = False
+            if done != tgt["delivered"]:
+                raise Failure("epr-resume:wait", self.case(), f"application {a}: its pair was {'' if tgt['delivered'] else 'not '}delivered but the waiting subroutine {'finished' if done else 'keeps waiting'}")
+            if done:
+                self.suspended.remove(tgt)
+                m = self.model[a]
+                m.regs["R1"] = 40 + a
+                m.ret_log = [("reg", "R1", 40 + a)]
+                snap = self.snapshot_app(a)
+                if snap["shared_regs"].get("R1") != 40 + a:
+                    raise Failure("epr-resume:wrong-application", self.case(), f"application {a}: its resumed subroutine should have returned R1={40 + a}; host-visible registers {snap['shared_regs']}")
         else:
             raise ValueError(op)
         self.info["max_alive"] = max(self.info["max_alive"], len(self.model))
@@ -235,8 +337,10 @@ class Runner13:
                 if p in seen:
                     raise Failure("physical-qubit-shared", self.case(), f"physical qubit {p} is mapped by application {seen[p][0]} virtual {seen[p][1]} and by application {a} virtual {v}")
                 seen[p] = (a, v)
-        if set(seen) != set(ex._used_physical_qubit_addresses):
-            raise Failure("used-set-mismatch", self.case(), f"physical qubits marked in use {sorted(ex._used_physical_qubit_addresses)} vs mapped {sorted(seen)}")
+        if set(seen) & set(self.reserved):
+            raise Failure("reserved-qubit-mapped", self.case(), f"physical qubits {sorted(set(seen) & set(self.reserved))} were taken by the network stack for undelivered pairs but are mapped by an application")
+        if set(seen) | set(self.reserved) != set(ex._used_physical_qubit_addresses):
+            raise Failure("used-set-mismatch", self.case(), f"physical qubits marked in use {sorted(ex._used_physical_qubit_addresses)} vs mapped {sorted(seen)} + taken by the stack {sorted(self.reserved)}")
         if set(ex._qubit_unit_modules) != set(self.model):
             raise Failure("app-set-mismatch", self.case(), f"controller has applications {sorted(ex._qubit_unit_modules)}, model {sorted(self.model)}")
         # 2./3. per application state
@@ -285,18 +389,22 @@ def make_machine(ctx, stt):
         @precondition(lambda self: len(self.r.model) >= 1)
         @rule(i=st.integers(0, 5))
         def stop(self, i):
-            apps = sorted(self.r.model)
-            self._do(["stop", apps[i % len(apps)]])
+            apps = [a for a in sorted(self.r.model) if a not in self._busy()]
+            if apps:
+                self._do(["stop", apps[i % len(apps)]])
 
         @precondition(lambda self: len(self.r.model) >= 1)
         @rule(i=st.integers(0, 5), macros=st.lists(st_macro, min_size=1, max_size=5))
         def sub(self, i, macros):
-            apps = sorted(self.r.model)
-            self._do(["sub", apps[i % len(apps)], macros])
+            apps = [a for a in sorted(self.r.model) if a not in self._busy()]
+            if apps:
+                self._do(["sub", apps[i % len(apps)], macros])
 
         @precondition(lambda self: len(self.r.model) >= 1)
         @rule(i=st.integers(0, 5), v=st.integers(0, 3))
         def epr(self, i, v):
+            if self.r.suspended:
+                return  # an older request of the same socket is still waiting: the pair would be its
             apps = sorted(self.r.model)
             a = apps[i % len(apps)]
             m = self.r.model[a]
@@ -305,10 +413,41 @@ def make_machine(ctx, stt):
                 return
             self._do(["epr", a, free[v % len(free)]])
 
+        def _busy(self):
+            return {s_["app"] for s_ in self.r.suspended}
+
+        @precondition(lambda self: len(self.r.reserved) < 2)
+        @rule()
+        def reserve(self):
+            self._do(["reserve"])
+
+        @precondition(lambda self: len(self.r.model) >= 1 and len(self.r.suspended) < 3)
+        @rule(i=st.integers(0, 5), v=st.integers(0, 3))
+        def epr_start(self, i, v):
+            apps = [a for a in sorted(self.r.model) if a not in self._busy()]
+            if not apps:
+                return
+            a = apps[i % len(apps)]
+            m = self.r.model[a]
+            free = [x for x in range(m.unit_size) if x not in m.qubits]
+            if not free:
+                return
+            self._do(["epr_start", a, free[v % len(free)]])
+
+        @precondition(lambda self: any(not s_["delivered"] for s_ in self.r.suspended))
+        @rule()
+        def epr_deliver(self):
+            self._do(["epr_deliver"])
+
+        @precondition(lambda self: len(self.r.suspended) >= 1)
+        @rule(i=st.integers(0, 5))
+        def epr_resume(self, i):
+            self._do(["epr_resume", i])
+
         def teardown(self):
             info = self.r.info
             nt = info["max_alive"] >= 2 and info["stops"] >= 1
-            labels = [f"alive:{info['max_alive']}"] + [k for k in ("stops", "reinit", "faults", "epr") if info[k]]
+            labels = [f"alive:{info['max_alive']}"] + [k for k in ("stops", "reinit", "faults", "epr", "reserve", "suspended") if info[k]] + ([f"suspended-at-once:{info['max_suspended']}"] if info["max_suspended"] >= 2 else [])
             h = self.r.history
             stt.case(h, nt, labels, sample={"history": h} if len(str(h)) < 600 else None)
 
